@@ -13,7 +13,7 @@ var propertyRules = map[string][]string{
 	"C08": {"RD1", "RD2", "VD6"},
 	"C09": {"VD7", "VD6", "VD8", "VD10", "LK4", "DT2", "DT5", "DT7"},
 	"C10": {"VD1", "LK5", "LK8", "WR1", "WR3", "WR5", "VD11", "VD12", "VD14"},
-	"C11": {"VD12", "VD13", "VD15", "VD1", "VD5", "VD10", "LK5", "LK8", "WR1", "WR2", "OU3", "OU4"},
+	"C11": {"VD12", "VD13", "VD15", "VD1", "VD5", "VD10", "LK2", "LK3", "LK4", "LK5", "LK8", "WR1", "WR2", "OU3", "OU4"},
 	"C12": {"DT1", "DT2", "DT3", "DT4", "DT6", "WR2", "LK6", "DT7"},
 	"C13": {"LK7", "WR1", "WR3", "WR6", "DT2"},
 	"C14": {"VD8", "VD7", "VD13", "DT5", "DT7"},
